@@ -244,7 +244,7 @@ def find_calls(node: ast.AST, suffix: str) -> List[ast.Call]:
     out = []
     for c in ast.walk(node):
         if isinstance(c, ast.Call):
-            d = dotted(c.func)
+            d = dotted(c.func) or src(c.func)
             if d and (d == suffix or d.endswith(suffix if suffix.startswith(".") else "." + suffix)):
                 out.append(c)
     return out
@@ -305,7 +305,7 @@ def attr_stores(fn: ast.AST, attr: str) -> List[ast.stmt]:
     return out
 
 
-def must_pass(cfg: CFG, is_event, from_node=None, to_nodes=None, skip_exc=True) -> Optional[List]:
+def must_pass(cfg: CFG, is_event, from_node=None, to_nodes=None, skip_exc=True, skip_edge=None) -> Optional[List]:
     """None if every path from `from_node` (default entry) to a node of `to_nodes` (default normal exit)
     passes through a node for which is_event() holds; otherwise a witness path (list of nodes)."""
     start = from_node or cfg.entry
@@ -323,6 +323,8 @@ def must_pass(cfg: CFG, is_event, from_node=None, to_nodes=None, skip_exc=True) 
             return list(reversed(path))
         for s, lab in n.succs:
             if skip_exc and lab == "exc":
+                continue
+            if skip_edge is not None and skip_edge(n, lab):
                 continue
             if s in prev:
                 continue
@@ -393,3 +395,31 @@ class ReachingDefs:
             return []
         ids = dict(st).get(name, frozenset({-1}))
         return [self.defsites.get(i) if i >= 0 else None for i in sorted(ids)]
+
+
+def or_terms(e: ast.expr) -> List[ast.expr]:
+    if isinstance(e, ast.BinOp) and isinstance(e.op, ast.BitOr):
+        return or_terms(e.left) + or_terms(e.right)
+    return [e]
+
+
+def subscript_target(t: ast.expr):
+    """For `self.X[k].raw` return ('X', k_expr) else None."""
+    if isinstance(t, ast.Attribute) and t.attr == "raw" and isinstance(t.value, ast.Subscript):
+        base = dotted(t.value.value)
+        if base and base.startswith("self."):
+            return base[5:], t.value.slice
+    return None
+
+
+def expand_or_terms(ff, e: ast.expr, depth: int = 0) -> List[ast.expr]:
+    """OR-terms of `e`, looking through locals that are assigned exactly once."""
+    out = []
+    for t in or_terms(e):
+        if isinstance(t, ast.Name) and depth < 4:
+            d = ff.one_def(t.id)
+            if d is not None:
+                out += expand_or_terms(ff, d, depth + 1)
+                continue
+        out.append(t)
+    return out
